@@ -8,6 +8,7 @@ import (
 	"path"
 	"time"
 
+	"github.com/google/gce-tcb-verifier/cmd/output"
 	"github.com/google/gce-tcb-verifier/gcetcbendorsement"
 	epb "github.com/google/gce-tcb-verifier/proto/endorsement"
 	"github.com/google/gce-tcb-verifier/verify"
@@ -15,6 +16,7 @@ import (
 	"google.golang.org/protobuf/proto"
 	fmpb "google.golang.org/protobuf/types/known/fieldmaskpb"
 
+	"verifsim/attest"
 	"verifsim/core"
 	"verifsim/images"
 	"verifsim/refv"
@@ -37,7 +39,7 @@ func init() {
 		Assumptions: []string{
 			"the trusted root of an endorsement is the authority's stored root certificate at the time of issue",
 			"count 1 is not demanded under a named VMSA count (verify.SNP reads one VMSA as an SVSM launch); see DESIGN C03",
-			"SevValidate/TdxValidate acceptance of listed measurements is exercised by the C02 world; here verify.SNP and the SNP validator closure are used",
+			"SevValidate and TdxValidate are driven with fabricated reports/quotes (package attest): hardware signatures are not part of the property",
 		},
 		Components: []core.Component{
 			{Name: "rotate.*, cmd bootstrap/rotate/endorse, endorse.VirtualFirmware/SignDoc/commit", Kind: "real"},
@@ -272,11 +274,38 @@ func c03Verify(r *core.Run, cfg worlda.Config, vcs *seams.SimVCS, e *issued, rot
 				r.Fail("listed-measurement-rejected", "svsm", "%s: signed SVSM measurement rejected for one VMSA: %v", cfg, err)
 			}
 		}
+		// SevValidate end to end (go-sev-guest's validator with the derived policy and the
+		// certificate-table validator) on a fabricated report, for a drawn listed count
+		{
+			c := counts[r.Intn(len(counts), "sevvalidate-count")]
+			m := snp.Measurements[c]
+			sctx := output.NewContext(context.Background(), &output.Options{Quiet: true})
+			for _, named := range []uint32{0, c} {
+				if named == 1 {
+					continue
+				}
+				if err := gcetcbendorsement.SevValidate(sctx, attest.SnpAttestation(m, raw), &gcetcbendorsement.SevValidateOptions{RootsOfTrust: pool, Now: mid, ExpectedLaunchVmsas: named}); err != nil {
+					r.Fail("listed-measurement-rejected", "SevValidate", "%s: SevValidate rejects a report carrying the measurement listed for %d VMSAs (count named: %d): %v", cfg, c, named, err)
+				}
+			}
+		}
 		if e.q.LaunchVmsas != 0 && len(snp.GetMeasurements()[e.q.LaunchVmsas]) != 48 {
 			r.Fail("listed-measurement-rejected", "requested-count-missing", "%s: requested VMSA count %d is not listed", cfg, e.q.LaunchVmsas)
 		}
 	} else if e.q.SNP {
 		r.Fail("listed-measurement-rejected", "snp-missing", "%s: SNP was requested but the signed document has no SNP section", cfg)
+	}
+	// every TDX row is accepted for its own RAM size and when no size is named
+	if rows := golden.GetTdx().GetMeasurements(); len(rows) > 0 {
+		row := rows[r.Intn(len(rows), "tdx-row")]
+		tctx := output.NewContext(context.Background(), &output.Options{Quiet: true})
+		for _, ram := range []int{0, int(row.GetRamGib())} {
+			if err := gcetcbendorsement.TdxValidate(tctx, attest.TdxQuoteRaw(attest.TdxQuote(row.GetMrtd())), &gcetcbendorsement.TdxValidateOptions{Endorsement: &le, RootsOfTrust: pool, Now: mid, ExpectedRAMGiB: ram}); err != nil {
+				r.Fail("listed-measurement-rejected", "TdxValidate", "%s: TdxValidate rejects a quote carrying the MRTD listed for %d GiB (size named: %d): %v", cfg, row.GetRamGib(), ram, err)
+			}
+		}
+	} else if e.q.TDX {
+		r.Fail("listed-measurement-rejected", "tdx-missing", "%s: TDX was requested but the signed document has no TDX rows", cfg)
 	}
 	// (c) the inspect commands emit the stored bytes verbatim
 	for _, part := range []string{"payload", "signature", "cert"} {
